@@ -1,4 +1,5 @@
 import Failsafe.Exec
+import Failsafe.Lemmas.ExecBodiesLink
 /-!
 # C10 — a fallback replaces exactly the failures it handles, once
 
@@ -116,5 +117,54 @@ handling `ErrExceeded`; and an inner layer returning an unhandled error -/
 example : isFailure [.errIs Err.RETRYEXCEEDED] (failureResult (.exceededE 0 (.leaf 1 0))).outcome = true := by decide
 example : isFailure [.errIs Err.RETRYEXCEEDED] (failureResult (.leaf 1 0)).outcome = false := by decide
 example : isFailure [.errIs Err.RETRYEXCEEDED] (fbOutcome (.value 7)) = false := by decide
+
+/-! ## On the regenerated body of the fallback executor's `Apply`
+
+`ExecBodies.fallbackApply` is the reference definition the body regenerated from the source on every run is proved equal to
+(`Tie/XFallback.lean`, `Tie/XBase.lean` for `PostExecute`); `fallback_link` shows that the model's fallback layer computes it. -/
+section kernel
+open Failsafe.ExecBodies
+
+/-- **the fallback function runs exactly for a failure the policy handles on an execution that is not cancelled, and once** -/
+theorem kernel_fn_called_iff (inner : PR) (post : Unit → PR → PR) (canc : Bool → Bool × PR) (fo : Outcome) (ff : Bool) (oe : Option Unit) :
+    let out := ExecBodies.fallbackApply {} inner post canc fo ff oe
+    (out.2.log.count "fn" = if !(post () inner).success && !(canc false).1 then 1 else 0) ∧ out.2.log.count "fn" ≤ 1 := by
+  simp only [ExecBodies.fallbackApply, fCallFn, fOnFallbackExecuted, FSt.emit]
+  cases (post () inner).success <;> cases (canc false).1 <;> cases (canc true).1 <;> cases oe <;> simp
+
+/-- **its output replaces the failure and is re-classified by the policy's own conditions**; a success or an unhandled outcome
+passes through as `PostExecute` returned it; under cancellation the cancel result is returned and the output discarded -/
+theorem kernel_result (inner : PR) (post : Unit → PR → PR) (canc : Bool → Bool × PR) (fo : Outcome) (ff : Bool) (oe : Option Unit) :
+    (ExecBodies.fallbackApply {} inner post canc fo ff oe).1 =
+      if (post () inner).success then post () inner
+      else if (canc false).1 then (canc false).2
+      else if (canc true).1 then (canc true).2
+      else ⟨fo.val, fo.err, true, !ff, !ff⟩ := by
+  simp only [ExecBodies.fallbackApply, fCallFn, FSt.emit]
+  split
+  · rfl
+  · split
+    · rfl
+    · split <;> rfl
+
+/-- `OnFallbackExecuted` fires exactly when the output is used -/
+theorem kernel_event_iff (inner : PR) (post : Unit → PR → PR) (canc : Bool → Bool × PR) (fo : Outcome) (ff : Bool) :
+    (ExecBodies.fallbackApply {} inner post canc fo ff (some ())).2.log.count "onFallbackExecuted" =
+      if !(post () inner).success && !(canc false).1 && !(canc true).1 then 1 else 0 := by
+  simp only [ExecBodies.fallbackApply, fCallFn, fOnFallbackExecuted, FSt.emit]
+  cases (post () inner).success <;> cases (canc false).1 <;> cases (canc true).1 <;> simp
+
+/-- **the composition model's fallback layer is the code's** -/
+theorem model_fallback_layer_is_the_codes (fuel pos : Nat) (k : FbKind) (h : List Cond) (inner : Layer) (r r1 : Run) (res : PR)
+    (hin : inner r = some (res, r1)) :
+    let fo : Outcome := match k with | .value v => ⟨v, none⟩ | .error e => ⟨0, some e⟩
+    let r2 := if isFailure h res.outcome then r1.emitSeen "fb.onFailure" pos (r1.seenBy res.outcome)
+              else r1.emitSeen "fb.onSuccess" pos (r1.seenBy res.outcome)
+    let kk := ExecBodies.fallbackApply {} res (Failsafe.Lemmas.ExecBodiesLink.postOf h) (fun _ => (r2.isCanc, r2.cancelRes)) fo (isFailure h fo) (some ())
+    ∃ r3, applyPolicy fuel pos (.fallback k h) inner r = some (kk.1, r3) ∧
+      r3.log.map (·.name) = r2.log.map (·.name) ++ kk.2.log.map (fun n => if n = "fn" then "fb.fn" else "fb." ++ n) :=
+  Failsafe.Lemmas.ExecBodiesLink.fallback_link fuel pos k h inner r r1 res hin
+
+end kernel
 
 end Failsafe.Props.C10
